@@ -700,7 +700,7 @@ func (g *Gen) callFrameCheck(st *BState, r *Region, calleeTargets []string, pos 
 			goal = "(or " + strings.Join(alts, " ") + ")"
 		}
 		a, p := g.anchor(pos)
-		g.addObl(st, "F", a, p, g.frameProps(), goal, "callee writes "+r.Key+" outside modifies")
+		g.addObl(st, "F", a+":"+r.Key, p, g.frameProps(), goal, "callee writes "+r.Key+" outside modifies")
 	}
 }
 
